@@ -72,8 +72,14 @@ func evaluateBitflagExpSigned[T signedInteger](n bitFlagExprNode, opts []EnumOpt
 		case tokenKindVerticalBar:
 			return lhs | rhs, nil
 		case tokenKindDoubleCaretLeft:
+			if rhs < 0 {
+				return 0, fmt.Errorf("negative shift count %d in bitflag expression", rhs)
+			}
 			return lhs << rhs, nil
 		case tokenKindDoubleCaretRight:
+			if rhs < 0 {
+				return 0, fmt.Errorf("negative shift count %d in bitflag expression", rhs)
+			}
 			return lhs >> rhs, nil
 		default:
 			return 0, fmt.Errorf("undefined binary operator for bitflag %v", v.op)
